@@ -28,7 +28,8 @@ BOUNDS = {
     "quick": "round trips and Jacobian for all hs, tz, s, d > 0 (symbolic, exact); push-forward and sampling wiring on "
              "both predefined EW models with symbolic parameters and 2 evaluation points; conditional_sample: 3-D "
              "model, every dim, symbolic given, 3 symbolic uniforms; IFORM branch: 3 points, symbolic seed in [0, 1000]",
-    "thorough": "same (the algebra is unbounded in the values; only the array sizes are bounds)",
+    "thorough": "plus vectorised round trips (2 elements, element-wise = scalar); the algebra is unbounded in the values, "
+                "only the array sizes are bounds",
 }
 OUTSIDE = [
     "NOT DECIDED: that the density integrates to one; DKW agreement of cdf / empirical cdf / samples; whether the x_max "
@@ -74,7 +75,16 @@ def h_round_trip(h):
     if h.sym:
         h.E.flatten_div = True
     with _Consts(h):
-        if h.cfg["direction"] == "inverse(transform(x))":
+        if h.cfg.get("vector"):
+            # array arguments: element-wise, element k of the result depends on element k of the inputs only
+            a = h.arr([h.real("hs0", 1e-3, 100.0), h.real("hs1", 1e-3, 100.0)])
+            b = h.arr([h.real("tz0", 1e-3, 100.0), h.real("tz1", 1e-3, 100.0)])
+            u, v = getattr(VT, fwd)(a, b)
+            a2, b2 = getattr(VT, inv)(u, v)
+            u0, v0 = getattr(VT, fwd)(a[0], b[0])
+            h.close(u[0], u0, "vectorised-equals-scalar")
+            h.close(v[0], v0, "vectorised-equals-scalar")
+        elif h.cfg["direction"] == "inverse(transform(x))":
             a, b = h.real("hs", 1e-3, 100.0), h.real("tz", 1e-3, 100.0)
             u, v = getattr(VT, fwd)(a, b)
             a2, b2 = getattr(VT, inv)(u, v)
@@ -463,6 +473,10 @@ def obligations(tier):
     for pair in PAIRS:
         for direction in ("inverse(transform(x))", "transform(inverse(y))"):
             yield ("round_trip", h_round_trip, {"pair": pair, "direction": direction}, {"timeout_ms": 15000})
+    if tier == "thorough":
+        for pair in PAIRS:
+            yield ("round_trip", h_round_trip, {"pair": pair, "direction": "inverse(transform(x))", "vector": True},
+                   {"timeout_ms": 30000})
     for g in ("get_Windmeier_EW_Hs_S", "get_Nonzero_EW_Hs_S"):
         yield ("jacobian", h_jacobian, {"getter": g}, {"timeout_ms": 15000})
         yield ("push_forward", h_push_forward, {"getter": g}, {})
